@@ -12,9 +12,13 @@ import (
 type SpecTy struct {
 	Go         types.Type
 	MapK, MapV *SpecTy
+	Raw        Sort // a memory array as a value (only in lemmas/axioms about heap-dependent spec functions)
 }
 
 func (vc *VC) specSort(t *SpecTy) Sort {
+	if t.Raw != "" {
+		return t.Raw
+	}
 	if t.MapK != nil {
 		return ArrSort(vc.specSort(t.MapK), vc.specSort(t.MapV))
 	}
@@ -93,6 +97,9 @@ func (vc *VC) parseSpecType(s string, pkg *types.Package) *SpecTy {
 	}
 	if strings.HasPrefix(s, "*") {
 		return goTy(types.NewPointer(vc.parseSpecType(s[1:], pkg).Go))
+	}
+	if strings.HasPrefix(s, "Mem_") {
+		return &SpecTy{Raw: vc.memSortByName(s)}
 	}
 	switch s {
 	case "Ref":
@@ -201,7 +208,7 @@ func (vc *VC) evalSpec(x SExpr, env *Env) (tv TV) {
 			t := Term{name, vc.specSort(ty)}
 			vars = append(vars, t)
 			e2 = e2.bind(v.Name, TV{T: t, Ty: ty})
-			if ty.Go != nil {
+			if ty.Go != nil && ty.Raw == "" {
 				ranges = append(ranges, vc.typeInv(t, ty.Go))
 			}
 		}
@@ -811,6 +818,17 @@ func (vc *VC) evalCall(x *SCall, env *Env) TV {
 		}
 		j := vc.materialize(vc.evalSpec(x.Args[1], env), intTy)
 		return TV{T: vc.load(env.state, vc.elem(vc.sliceArr(sv.T), vc.toIdx(j)), sl.Elem()), Ty: goTy(sl.Elem())}
+	case "at":
+		// at(H, s, k): element k of slice s read from the memory array value H
+		h := vc.evalSpec(x.Args[0], env)
+		sv := vc.evalSpec(x.Args[1], env)
+		sl, ok := sv.Ty.Go.Underlying().(*types.Slice)
+		if !ok || h.Ty == nil || h.Ty.Raw == "" {
+			specFail("at(H, s, k): H must be a memory array and s a slice")
+		}
+		k := vc.materialize(vc.evalSpec(x.Args[2], env), intTy)
+		ei := vc.info(sl.Elem())
+		return TV{T: Select(h.T, vc.elemAt(vc.sliceArr(sv.T), vc.sliceOff(sv.T), vc.toIdx(k)), ei.sort), Ty: goTy(sl.Elem())}
 	case "addrof":
 		ref, t := vc.lvalue(x.Args[0], env)
 		return TV{T: ref, Ty: goTy(types.NewPointer(t))}
@@ -905,6 +923,26 @@ func (vc *VC) evalCall(x *SCall, env *Env) TV {
 			return vc.specConvert(vc.evalSpec(x.Args[0], env), goTy(tn.Type()))
 		}
 	}
+	// explicit-heap call of a heap-dependent spec function: f_at(H1.., args..)
+	if strings.HasSuffix(x.Fn, "_at") {
+		if fn, ok := vc.specs.Fns[strings.TrimSuffix(x.Fn, "_at")]; ok && len(fn.Reads) > 0 {
+			name := strings.TrimSuffix(x.Fn, "_at")
+			vc.useSpecFn(name, env.pkg)
+			if len(x.Args) != len(fn.Reads)+len(fn.Params) {
+				specFail("%s: wrong number of arguments", x.Fn)
+			}
+			var heaps, args []Term
+			for i := range fn.Reads {
+				heaps = append(heaps, vc.evalSpec(x.Args[i], env).T)
+			}
+			for i, a := range x.Args[len(fn.Reads):] {
+				pt := vc.parseSpecType(fn.Params[i].Type, env.pkg)
+				args = append(args, vc.materialize(vc.evalSpec(a, env), pt).T)
+			}
+			rt := vc.parseSpecType(fn.Result, env.pkg)
+			return TV{T: App(vc.specSort(rt), "sf_"+sanitize(name), append(args, heaps...)...), Ty: rt}
+		}
+	}
 	// macro: expanded in the caller's environment
 	if m, ok := vc.specs.Macros[x.Fn]; ok {
 		if len(m.Params) != len(x.Args) {
@@ -934,6 +972,10 @@ func (vc *VC) evalCall(x *SCall, env *Env) TV {
 				specFail("spec fn %s: argument %d has sort %s, want %s", x.Fn, i, v.T.Sort, vc.specSort(pt))
 			}
 			args = append(args, v.T)
+		}
+		for _, rn := range fn.Reads {
+			vc.registerState(rn, vc.memSortByName(rn))
+			args = append(args, env.state.get(vc, rn))
 		}
 		rt := vc.parseSpecType(fn.Result, env.pkg)
 		if len(args) == 0 {
